@@ -54,11 +54,11 @@ def gen_exhaustive(tier, rng):
         for b in pool:
             for c in pool:
                 toks = (a, b, c)
-                if admissible(toks) and (tier != 'quick' or rng.random() < 0.5):
+                if admissible(toks) and (tier != 'quick' or rng.random() < 0.3):
                     yield ('exhaustive', 1, [straight(toks), [], ''])
     if tier != 'quick':
         for toks in itertools.product(first, pool, pool, pool):
-            if rng.random() < 0.06 and admissible(toks):
+            if rng.random() < 0.03 and admissible(toks):
                 yield ('exhaustive4', 1, [straight(toks), [], ''])
     # operand triples for the ternary built-ins (and pairs for the binary ones with special pools)
     ops = INTS + STRS + [F(I(1)), Q('gi'), Id('gi')]
@@ -334,6 +334,59 @@ def has_fr_print(cmds):
     dropping such programs only when they really print one (decided by the run itself: see c03.py)"""
     return False
 
+
+# ----------------------------------------------------------------------------------------
+# programs that read no database: fully checked by the reference evaluator of c03_oracle
+def gen_exec_program(rng):
+    cx = Ctx(rng, loops=True)
+    cmds = [cmd('INTEGERS', [Id(v) for v in cx.gints + ['cnt0', 'cnt1']]), cmd('STRINGS', [Id(v) for v in cx.gstrs])]
+    for j in range(rng.randint(1, 4)):
+        name = 'h%d' % j
+        cmds.append(cmd('FUNCTION', [Id(name)], cx.block(3) + (cx.pick([cx.int_e, cx.str_e])(3) if rng.random() < 0.5 else [])))
+        cx.funcs.append((name, 'stmt', False))
+        if rng.random() < 0.6:
+            cmds.append(cmd('EXECUTE', [Id(name)]))
+    cmds.append(cmd('EXECUTE', [Id(cx.funcs[-1][0])]))
+    return cmds, [], ''
+
+# ITERATE / REVERSE / SORT and entry variables, made visible in the output (read by c03_oracle.oracle_probe)
+PROBE_TITLES = ['b', 'a', 'B', 'ab', 'a b', 'zz', '', 'a', 'b', '10', '9', 'a{b}', 'Z']
+PROBE_MARKS = ('first', 'count', 'iterate', 'reverse', 'sorted')
+def probe_header(with_default):
+    def mark(l):
+        return cmd('FUNCTION', [Id('mark.' + l)], [Sx('#' + l), Id('write$'), Id('newline$')])
+    def typ(name, tag):
+        return cmd('FUNCTION', [Id(name)], [Sx(tag), Id('write$'), Id('newline$')])
+    cmds = [cmd('ENTRY', [Id('title')], [Id('n')], []), cmd('INTEGERS', [Id('g')]),
+            typ('misc', '[M]'), typ('book', '[B]')] + ([typ('default.type', '[D]')] if with_default else []) + [
+            cmd('FUNCTION', [Id('probe.show')], [Sx('<'), Id('cite$'), Id('*'), Sx(':'), Id('*'), Id('n'), Id('int.to.str$'), Id('*'), Sx(':'), Id('*'),
+                                                Id('sort.key$'), Id('*'), Sx('>'), Id('*'), Id('write$'), Id('newline$'), Id('call.type$')]),
+            cmd('FUNCTION', [Id('probe.count')], [Id('g'), I(1), Id('+'), Q('g'), Id(':='), Id('g'), Q('n'), Id(':='),
+                                                 Id('title'), Id('duplicate$'), Id('missing$'), F(Id('pop$'), Sx('')), Q('skip$'), Id('if$'), Q('sort.key$'), Id(':='), Id('probe.show')])]
+    cmds += [mark(l) for l in PROBE_MARKS]
+    cmds += [cmd('READ'), cmd('EXECUTE', [Id('mark.first')]), cmd('ITERATE', [Id('probe.show')]),
+             cmd('EXECUTE', [Id('mark.count')]), cmd('ITERATE', [Id('probe.count')])]
+    return cmds
+PROBE_STEPS = {
+    'sorted': [cmd('SORT'), cmd('EXECUTE', [Id('mark.sorted')]), cmd('ITERATE', [Id('probe.show')])],
+    'iterate': [cmd('EXECUTE', [Id('mark.iterate')]), cmd('ITERATE', [Id('probe.show')])],
+    'reverse': [cmd('EXECUTE', [Id('mark.reverse')]), cmd('REVERSE', [Id('probe.show')])],
+    'count': [cmd('EXECUTE', [Id('mark.count')]), cmd('ITERATE', [Id('probe.count')])],
+}
+def order_probe(rng):
+    cmds = probe_header(rng.random() < 0.7)
+    for _ in range(rng.randint(1, 5)):
+        k = rng.random()
+        cmds += PROBE_STEPS['sorted' if k < 0.4 else 'iterate' if k < 0.6 else 'reverse' if k < 0.85 else 'count']
+    keys = rng.sample(['k1', 'k2', 'k3', 'k4', 'k5', 'k6', 'k7'], rng.randint(0, 7))
+    bib = ''.join('@%s{%s%s}\n' % (rng.choice(['misc', 'misc', 'book', 'BOOK', 'weird']), k, '' if rng.random() < 0.15 else ', title = {%s}' % rng.choice(PROBE_TITLES)) for k in keys)
+    cites = rng.sample(keys, rng.randint(0, len(keys)))
+    cites = [c.upper() if rng.random() < 0.2 else c for c in cites]
+    if cites and rng.random() < 0.25:
+        cites.insert(rng.randint(0, len(cites)), rng.choice(cites).swapcase())     # the same entry under two spellings
+    if rng.random() < 0.2: cites = ['*']
+    return cmds, cites, bib
+
 # ----------------------------------------------------------------------------------------
 PIN_BIB = ('@preamble{"PRE"}\n@article{k1, title = {The {T}itle: a story}, author = "Knuth, Donald E. and Lamport, Leslie", year = 1999}\n'
            '@book{K2, title = "x", note = jan, crossref = {k1}}\n@misc{a3, title = {Zeta}, month = mac}\n@weird{w4, author = {}}\n')
@@ -431,9 +484,13 @@ def gen_all(tier, rng):
         yield c
     for c in gen_exhaustive(tier, rng):
         yield c
-    for i in range(1500 if tier == 'quick' else 40000):
+    for i in range(1500 if tier == 'quick' else 15000):
         cmds, cites, bib = gen_program(rng, loops=True)
         yield ('random', 1, [cmds, cites, bib])
-    for i in range(1500 if tier == 'quick' else 40000):
+    for i in range(1500 if tier == 'quick' else 15000):
+        yield ('random_exec', 1, list(gen_exec_program(rng)))
+    for i in range(600 if tier == 'quick' else 6000):
+        yield ('order_probe', 1, list(order_probe(rng)))
+    for i in range(1500 if tier == 'quick' else 15000):
         cmds, cites, bib = gen_program(rng, loops=False)
         yield ('malformed', 1, [mutate(rng, cmds), cites, bib])
